@@ -583,6 +583,26 @@ example :
     ((cleanupTimeout sh0 s 4000).conds.map fun r => r.2.inst) = [l, []] := by
   decide
 
+/-- API-backed store: a refused delete only postpones. `d` reported twice (labelled condition), dies; while the API
+    refuses the delete of its condition both passes leave it (and say so: `failing`), the first answered pass removes it. -/
+example :
+    let nm := condName u d
+    let s := run sh0 init [.setLeader 0 true, .list u [⟨fcN, some 10, none⟩], .leaderCheck, .heartbeat d 0,
+      .report u d [(fcN, .mif)] [⟨fcN, some 3, none⟩], .report u d [(fcN, .mif)] [⟨fcN, some 3, none⟩],
+      .faults [nm], .cleanupTimeout 9000, .cleanupUnknown]
+    ¬ NoCondLed sh0 d s ∧ NoHb d s ∧ NoCondLed sh0 d (run sh0 s [.faults [], .cleanupUnknown]) := by
+  decide
+
+/-- a burst of parallel first acquires that ended with count 3 / request id 8 for `d`, then `d` dies: the total goes
+    back to what the others hold. -/
+example :
+    let s := run sh0 init [.setLeader 0 true, .list u [⟨fcN, some 10, none⟩], .leaderCheck, .heartbeat d 0, .heartbeat l 0,
+      .acquire u l 1 [(fcN, 2)], .burst u d fcN (some ⟨3, 8⟩)]
+    (s.fcs.map fun r => (r.2.2.count, r.2.2.states.map fun p => (p.1, p.2.count))) = [(5, [(l, 2), (d, 3)])] ∧
+    ((run sh0 s [.heartbeat l 3500, .cleanupTimeout 4000]).fcs.map fun r => (r.2.2.count, r.2.2.states.map fun p => (p.1, p.2.count)))
+      = [(2, [(l, 2)])] := by
+  decide
+
 end nonvacuous
 
 end KG.Props.C18
